@@ -3,6 +3,7 @@ package sim
 import (
 	"bytes"
 	"fmt"
+	"sync"
 
 	"github.com/plgd-dev/go-coap/v3/message/pool"
 	"github.com/plgd-dev/go-coap/v3/mux"
@@ -172,26 +173,42 @@ func c07Run(e *Env, tlsShim bool) {
 	var handled []got
 	a, _ := NewStream(e, TCPAddr("10.0.0.1", 40000), TCPAddr("10.0.0.2", 5683))
 	router := mux.NewRouter()
+	// busy: the handler of the first message is stuck in application code and the receive queue is tiny, so the
+	// rest of the stream piles up behind it; order and completeness are judged after the handler was let go
+	busy := !withOversize && t.Chance(1, 3)
+	qsize := 1 + t.Choose(2)
+	gate := make(chan struct{})
+	var gateOnce sync.Once
+	openGate := func() { gateOnce.Do(func() { close(gate) }) }
+	e.OnCleanup(openGate)
 	router.DefaultHandle(mux.HandlerFunc(func(_ mux.ResponseWriter, r *mux.Message) {
 		ri := Snapshot(r.Message)
 		e.mu.Lock()
 		handled = append(handled, got{ri.Code, ri.Token, ri.Opts, ri.Payload})
+		first := len(handled) == 1
 		e.mu.Unlock()
 		e.Notef("handler got %d.%02d tok=%x pl=%d", ri.Code>>5, ri.Code&31, ri.Token, len(ri.Payload))
+		if busy && first {
+			<-gate
+		}
 	}))
-	ep, err := NewTCPEndpoint(e, a, TCPEndpointCfg{TLS: tlsShim, Opts: []tcp.Option{
+	topts := []tcp.Option{
 		options.WithMaxMessageSize(maxSize),
 		options.WithConnectionCacheSize(cacheSize),
 		options.WithMux(router),
 		options.WithCloseSocket(),
-	}})
+	}
+	if busy {
+		topts = append(topts, options.WithReceivedMessageQueueSize(qsize))
+	}
+	ep, err := NewTCPEndpoint(e, a, TCPEndpointCfg{TLS: tlsShim, Opts: topts})
 	if err != nil {
 		e.Violate("HARNESS", "client-setup", "tcp.Client failed: %v", err)
 		return
 	}
 	e.Real("mux.Router (default handler)")
 	e.Wait()
-	e.Logf("cfg max=%d cache=%d msgs=%d oversize=%v@%d stream=%dB tls=%v", maxSize, cacheSize, nMsg, withOversize, oversizeAt, len(stream), tlsShim)
+	e.Logf("cfg max=%d cache=%d msgs=%d oversize=%v@%d stream=%dB tls=%v busy-handler=%v queue=%d", maxSize, cacheSize, nMsg, withOversize, oversizeAt, len(stream), tlsShim, busy, qsize)
 	for i, f := range frames {
 		e.Logf("frame %d: code=%d.%02d tkl=%d len=%d hdr=%d signal=%v oversize=%v declared=%d", i, f.msg.Code>>5, f.msg.Code&31, len(f.msg.Token), len(f.raw), f.hdrLen, f.signal, f.oversize, f.declared)
 	}
@@ -274,6 +291,25 @@ func c07Run(e *Env, tlsShim bool) {
 		}
 	}
 	e.Wait()
+	if busy {
+		e.mu.Lock()
+		piled := len(handled)
+		e.mu.Unlock()
+		if nonSignal := func() (n int) {
+			for _, f := range frames {
+				if !f.signal && f.start+len(f.raw) <= released {
+					n++
+				}
+			}
+			return
+		}(); piled == 1 && nonSignal > 1+qsize+1 {
+			e.NonTrivial()
+			e.Probe("handler.busyWhileQueueFull")
+		}
+		e.Logf("the busy handler returns")
+		openGate()
+		e.Wait()
+	}
 
 	// ---- oracle
 	var want []got
